@@ -318,6 +318,17 @@ public:
             StylesheetConstructionContext&  constructionContext);
 
     /**
+     * Get the next rank in the order of increasing import precedence.
+     *
+     * @return The rank
+     */
+    unsigned long
+    getNextImportPrecedence()
+    {
+        return m_nextImportPrecedence++;
+    }
+
+    /**
      * Retrieve the stack of imported stylesheets.
      * 
      * @return stack of URIs for stylesheets
@@ -575,6 +586,8 @@ private:
      * a recursive include or import, which is an error.
      */
     URLStackType                m_importStack;
+
+    unsigned long               m_nextImportPrecedence;
 
 
     /**
